@@ -294,10 +294,7 @@ func (fs *memFS) OpenFile(ctx context.Context, name string, flag int, perm os.Fi
 
 	} else {
 		n = dir.children[frag]
-		if flag&(os.O_SYNC|os.O_APPEND) != 0 {
-			// memFile doesn't support these flags yet.
-			return nil, os.ErrInvalid
-		}
+		// O_SYNC needs no special handling: writes to a memFile are never buffered.
 		if flag&os.O_CREATE != 0 {
 			if flag&os.O_EXCL != 0 && n != nil {
 				return nil, os.ErrExist
@@ -597,6 +594,10 @@ func (f *memFile) Write(p []byte) (int, error) {
 	if accessMode(f.flag) == os.O_RDONLY {
 		// The file was opened for reading only.
 		return 0, os.ErrPermission
+	}
+	if f.flag&os.O_APPEND != 0 {
+		// Every write appends, wherever the file is positioned.
+		f.pos = len(f.n.data)
 	}
 	if f.pos < len(f.n.data) {
 		n := copy(f.n.data[f.pos:], p)
